@@ -7,6 +7,7 @@ import (
 	"math/big"
 	"os"
 	"runtime/debug"
+	"runtime/pprof"
 	"sort"
 	"strings"
 
@@ -63,6 +64,8 @@ type concrete struct {
 	lb, certLb                          *lookBack
 	seedHeader, certHeader, parent, hdr *types.Header
 	entry                               string
+	stakeHeader, certStakeHeader        *types.Header // validator-set history: headers at the stake look-back heights
+	lbDecoy, certLbDecoy                *lookBack     // … and the sets committed at the seed look-back heights
 	hdr0                                *types.Header // replay of a stateful sequence: the honest twin H
 	seq                                 []seqStep
 }
@@ -73,7 +76,19 @@ func newServer() *ucon.Server {
 }
 
 // goVerify judges one header on a FRESH engine (no state from earlier verifications).
-func goVerify(x *concrete) string { return goVerifyOn(newServer(), x, x.entry) }
+func goVerify(x *concrete) string { return goVerifyOn(newServer(), x, usableEntry(x, x.entry)) }
+
+// which model function a Go entry point corresponds to: side = look-back handed in; the others resolve the look-back
+// themselves (chain = resolution modelled explicitly, used when the case carries a validator-set history)
+func modelEntry(history bool, entry string) string {
+	switch {
+	case entry == "side":
+		return "side"
+	case history:
+		return "chain"
+	}
+	return "seal"
+}
 
 // chainFor builds the stub chain a header needs for the VerifySeal / VerifyHeader(s) entries. withParent also
 // installs the parent at number-1 (needed by verifyCascadingFields); ok = false when that slot is a look-back header.
@@ -95,13 +110,28 @@ func chainFor(x *concrete, withParent bool) (ch *stubChain, ok bool) {
 			ch.headers[num] = h
 		}
 	}
-	put(back(x.cp.SeedLookBack), x.seedHeader)
-	put(back(x.cp.StakeLookBack), x.seedHeader)
-	put(back(params.ACoCHTFrequency), x.certHeader)
-	put(back(2*params.ACoCHTFrequency), x.certHeader)
-	ch.readers[x.seedHeader.ValRoot] = x.lb
+	hs := protocolHeights(x.cp, n)
+	_ = back
+	// the chain holds ONE header per height; the reader of a header's ValRoot is the validator set committed there
+	put(hs.seed, x.seedHeader)
+	if x.stakeHeader != nil && hs.stake != hs.seed {
+		put(hs.stake, x.stakeHeader)
+		ch.readers[x.stakeHeader.ValRoot] = x.lb
+		ch.readers[x.seedHeader.ValRoot] = x.lbDecoy
+	} else {
+		put(hs.stake, x.seedHeader)
+		ch.readers[x.seedHeader.ValRoot] = x.lb
+	}
 	if x.certHeader != nil && certRd != nil {
-		ch.readers[x.certHeader.ValRoot] = certRd
+		put(hs.certSeed, x.certHeader)
+		if x.certStakeHeader != nil && hs.certStake != hs.certSeed {
+			put(hs.certStake, x.certStakeHeader)
+			ch.readers[x.certStakeHeader.ValRoot] = certRd
+			ch.readers[x.certHeader.ValRoot] = x.certLbDecoy
+		} else {
+			put(hs.certStake, x.certHeader)
+			ch.readers[x.certHeader.ValRoot] = certRd
+		}
 	}
 	if withParent {
 		if _, taken := ch.headers[n-1]; taken || n == 0 {
@@ -147,7 +177,8 @@ func goVerifyOn(srv *ucon.Server, x *concrete, entry string) (cls string) {
 }
 
 func (c *caseT) concrete() *concrete {
-	return &concrete{cp: c.cp, lb: c.lb, certLb: c.certLb, seedHeader: c.seedHeader, certHeader: c.certHeader, parent: c.parent, hdr: c.header, entry: c.entry}
+	return &concrete{cp: c.cp, lb: c.lb, certLb: c.certLb, seedHeader: c.seedHeader, certHeader: c.certHeader, parent: c.parent, hdr: c.header, entry: c.entry,
+		stakeHeader: c.stakeHeader, certStakeHeader: c.certStakeHeader, lbDecoy: c.lbDecoy, certLbDecoy: c.certLbDecoy}
 }
 
 // fillChoose makes sure the table holds every choose() value the model can ask for.
@@ -222,6 +253,14 @@ func replayBody(c *caseT, lines []string) []string {
 	if c.isCertRound() {
 		dump(1, c.certLb)
 	}
+	if c.stakeHeader != nil {
+		dump(2, c.lbDecoy)
+		out = append(out, "G stakehdr "+hexRLP(c.stakeHeader))
+	}
+	if c.certStakeHeader != nil {
+		dump(3, c.certLbDecoy)
+		out = append(out, "G certstakehdr "+hexRLP(c.certStakeHeader))
+	}
 	out = append(out, "G seedhdr "+hexRLP(c.seedHeader), "G certhdr "+hexRLP(c.certHeader), "G parent "+hexRLP(c.parent), "G header "+hexRLP(c.header))
 	for _, l := range lines {
 		out = append(out, "L "+l)
@@ -232,7 +271,7 @@ func replayBody(c *caseT, lines []string) []string {
 func concreteFromReplay(body []string) (*concrete, []string, error) {
 	x := &concrete{}
 	var lines []string
-	var specs [2][]*valSpec
+	var specs [4][]*valSpec
 	decHdr := func(s string) (*types.Header, error) {
 		if s == "-" {
 			return nil, nil
@@ -282,6 +321,10 @@ func concreteFromReplay(body []string) (*concrete, []string, error) {
 			x.hdr, err = decHdr(f[2])
 		case "header0":
 			x.hdr0, err = decHdr(f[2])
+		case "stakehdr":
+			x.stakeHeader, err = decHdr(f[2])
+		case "certstakehdr":
+			x.certStakeHeader, err = decHdr(f[2])
 		}
 		if err != nil {
 			return nil, nil, err
@@ -293,6 +336,12 @@ func concreteFromReplay(body []string) (*concrete, []string, error) {
 	x.lb = buildLookBack(specs[0])
 	if len(specs[1]) > 0 {
 		x.certLb = buildLookBack(specs[1])
+	}
+	if len(specs[2]) > 0 {
+		x.lbDecoy = buildLookBack(specs[2])
+	}
+	if len(specs[3]) > 0 {
+		x.certLbDecoy = buildLookBack(specs[3])
 	}
 	return x, lines, nil
 }
@@ -347,7 +396,7 @@ func (rn *runner) evaluate(c *caseT, t *truth, honest bool) ([]string, string) {
 	res := rn.c.Res
 	c.fillChoose(t)
 	lines := append(caseLines(c, t), c.ct.lines()...)
-	lines = append(lines, "RUN "+c.entry)
+	lines = append(lines, "RUN "+modelEntry(c.history, c.entry))
 	gcls := goVerify(c.concrete())
 	s := parseSym(lines)
 	name := strings.Join(c.muts, "+")
@@ -489,10 +538,13 @@ func (rn *runner) stateful(h *twinT, tw *twinT, idem bool) {
 			if last.which == 1 {
 				x = t
 			}
-			me := last.entry
-			if me != "side" {
-				me = "seal"
+			hist := false
+			for _, l := range x.lines {
+				if strings.HasPrefix(l, "LBCFG ") {
+					hist = true
+				}
 			}
+			me := modelEntry(hist, last.entry)
 			ls := append(append([]string{}, x.lines[:len(x.lines)-1]...), "RUN "+me)
 			if m := rn.ask(ls); coarse(m) != got[len(got)-1] {
 				bad = len(steps) - 1
@@ -549,6 +601,12 @@ func protoCP(r *vh.RNG) params.CaravelParams {
 
 func run(c *vh.Ctx) error {
 	setup(c.Seed)
+	if pf := os.Getenv("C01_PROF"); pf != "" {
+		if f, err := os.Create(pf); err == nil {
+			pprof.StartCPUProfile(f)
+			defer pprof.StopCPUProfile()
+		}
+	}
 	res := c.Res
 	res.Rule = "case = look-back validator set (real secp256k1/VRF/BLS keys) + crafted header + packed vote multiset + aggregate signature; non-trivial when the set has >= 2 members and at least one typed mutation is applied, or the header is an honest one (including weight-near-quorum variants); distinct by the canonical symbolic text"
 	rn := &runner{c: c}
@@ -653,7 +711,7 @@ func run(c *vh.Ctx) error {
 	}
 
 	// ---- headers ----------------------------------------------------------------------------------------
-	nWorlds := c.N(40, 300)
+	nWorlds := c.N(34, 220)
 	if c.Search {
 		nWorlds *= 2
 	}
@@ -687,6 +745,17 @@ func run(c *vh.Ctx) error {
 			}
 			if c.R.Chance(30) {
 				h.entry = "seal"
+			}
+			// validator-set history: the chain holds another validator set (and another seed) at the other look-back height
+			var wD *world
+			if c.R.Chance(45) {
+				wD = decoyWorld(c.R, w)
+				h.history, h.lbDecoy, h.decoySeed = true, buildLookBack(wD.specs), randHash(c.R)
+				if h.isCertRound() {
+					h.certLbDecoy = buildLookBack(decoyWorld(c.R, w).specs)
+				}
+				h.entry = []string{"seal", "header", "headers", "seal", "header", "side"}[c.R.Intn(6)]
+				res.Dist("validator-set-history")
 			}
 			hc := h.clone()
 			t := hc.realise(c.R)
@@ -723,6 +792,20 @@ func run(c *vh.Ctx) error {
 			}
 			if hc.isCertRound() {
 				res.Dist("cert-round")
+			}
+			if wD != nil {
+				// the attack the history is about: a header built honestly against the set at the SEED look-back height
+				// (its proposer, its voters, their seats and indices); the protocol judges it against the stake-height set
+				if a := honestCase(c.R, wD, cp, number); a != nil {
+					a.history, a.lbDecoy, a.lb, a.decoySeed = true, a.lb, h.lb, randHash(c.R)
+					if a.isCertRound() {
+						a.certLbDecoy, a.certLb = a.certLb, h.certLb
+					}
+					a.entry = []string{"seal", "header", "headers"}[c.R.Intn(3)]
+					a.muts = []string{"built-against-seed-height-set"}
+					rn.evaluate(a, a.realise(c.R), false)
+					res.Dist("class:look-back-height")
+				}
 			}
 			if !cp.EnableBls {
 				res.Dist("secp-branch")
